@@ -57,7 +57,7 @@ def succOrd (t : Tbl) (rec : Option (List Nat)) : Except Err (List Nat) :=
   | some l => if succOrderOk t l then .ok l else .error .sched
 
 /-- ops on one `dd.bdd.BDD` manager -/
-def stepApiMgr (op : String) (args : List String) (rec : Option (List Nat)) : Option (M Res) :=
+def stepApiMgr (op : String) (args : List String) (rec : Option (List Nat)) : Option (M DRes) :=
   match op, args with
   | "levels", [skip] =>
     match parseBool? skip with
@@ -83,7 +83,7 @@ def stepApiMgr (op : String) (args : List String) (rec : Option (List Nat)) : Op
     | _, _, _, _ => some (M.throw .other)
   | "var_levels", [] => some fun m => (.ok (.str (showVarLevels (varLevels m.tbl))), m)
   | "vars", [] => some fun m => (.ok (.str (showVarLevels (varLevels m.tbl))), m)
-  | "ordering", [] => some fun m => (orderingView.map fun _ => Res.unit, m)
+  | "ordering", [] => some fun m => (orderingView.map fun _ => DRes.unit, m)
   | "iter", [] => some fun m => (.ok (.nats (iterNodes m.tbl)), m)
   | "str", [] => some fun m =>
     (.ok (.str ("vars=" ++ showVarLevels (varLevels m.tbl) ++ ";roots=" ++
@@ -124,7 +124,7 @@ def isApiLineOp (op : String) : Bool :=
   op == "reduction" || op == "copy_m" || op == "mgr_eq" || op == "mgr_ne" || op == "iso_orders"
 
 /-- ops of the autoref layer (`dd.autoref.BDD` methods `a_…`, `Function` methods `f_…`) -/
-def stepApiAuto (op : String) (args : List String) (outs : List Nat) : Option (AM Res) :=
+def stepApiAuto (op : String) (args : List String) (outs : List Nat) : Option (AM DRes) :=
   match op, args, outs with
   | "f_count", [s], [] =>
     match parseHandle? s with
@@ -233,7 +233,7 @@ def stepXCopy (s : ASess) (id : Nat) (op : String) (args : List String) : ASess 
     | _, _, _ => (s, "err BAD-LINE")
 
 /-- ops on one `dd.mdd.MDD` manager -/
-def stepApiMdd (op : String) (args : List String) : Option (MM Res) :=
+def stepApiMdd (op : String) (args : List String) : Option (MM DRes) :=
   match op, args with
   | "mdd_to_expr", [u] =>
     match parseInt? u with
@@ -244,7 +244,7 @@ def stepApiMdd (op : String) (args : List String) : Option (MM Res) :=
     -- `g = _to_dot(self)` runs first: its `KeyError` wins
     (match mToDot m.tbl with
      | .error e => .error e
-     | .ok _ => (mDumpKind m.tbl fname).map Res.str, m)
+     | .ok _ => (mDumpKind m.tbl fname).map DRes.str, m)
   | "mdd_to_dot", [] => some fun m =>
     ((mToDot m.tbl).map fun (ns, es) =>
       .str ("N=" ++ joinWith "," ((sortBy (fun (a b : Nat × Nat × String) => a.1 ≤ b.1) ns).map
@@ -301,7 +301,7 @@ def stepLineApi (st : ApiSess) (line : String) : ApiSess × String :=
             let (r, tgt') := copyMethod src.tbl u { tgt with sched := sched }
             let left := !tgt'.sched.isEmpty && (match r with | .ok _ => true | .error _ => false)
             ({ st with a := { st.a with ms := st.a.ms.insert dst { tgt' with sched := [] } } },
-              showOut (r.map Res.int) ++ (if left then " SCHED-LEFT" else ""))
+              showOut (r.map DRes.int) ++ (if left then " SCHED-LEFT" else ""))
           | _, _ => (st, "err BAD-MGR")
         | _, _, _ => (st, "err BAD-LINE")
       | "mgr_eq", [other] =>
@@ -320,7 +320,7 @@ def stepLineApi (st : ApiSess) (line : String) : ApiSess × String :=
       | "iso_orders", [old, new, supp] =>
         match parseNameInts old, parseNameInts new with
         | some old, some new =>
-          (st, showOut ((assertIsomorphicOrders old new (splitOn1 supp ',')).map fun _ => Res.unit))
+          (st, showOut ((assertIsomorphicOrders old new (splitOn1 supp ',')).map fun _ => DRes.unit))
         | _, _ => (st, "err BAD-LINE")
       | _, _ => (st, "err BAD-LINE")
     else if isApiXCopyOp op then
@@ -350,7 +350,7 @@ def stepLineApi (st : ApiSess) (line : String) : ApiSess × String :=
     | none =>
     -- (`->` is also a spelling of implication: a line whose `->` is not followed by handle ids
     -- is not an autoref line)
-    let autoHit : Option (AM Res × List Nat) :=
+    let autoHit : Option (AM DRes × List Nat) :=
       match splitOuts args with
       | some (args', outs) => (stepApiAuto op args' outs).map fun x => (x, outs)
       | none => none
